@@ -751,7 +751,7 @@ func (t *FnTrans) modItem(x *Expr, env *Env, f func(comp, sort, ref string)) {
 					}
 					if ts := t.eng.specs.Types[typeName(T)]; ts != nil {
 						if gs, ok := ts.GhostField[x.Name]; ok {
-							f("H."+originName(T)+".$"+x.Name, "(Array Int "+t.ghostSort(gs, T)+")", "")
+							f(ghostCompName(originName(T), x.Name, gs, t.ghostSort(gs, T)), "(Array Int "+t.ghostSort(gs, T)+")", "")
 							return
 						}
 					}
@@ -773,7 +773,7 @@ func (t *FnTrans) modItem(x *Expr, env *Env, f func(comp, sort, ref string)) {
 							}
 							ref = t.termOfOpt(Val{P: base.P})
 						}
-						f("H."+originName(n)+".$"+x.Name, "(Array Int "+t.ghostSort(gs, n)+")", ref)
+						f(ghostCompName(originName(n), x.Name, gs, t.ghostSort(gs, n)), "(Array Int "+t.ghostSort(gs, n)+")", ref)
 						return
 					}
 				}
